@@ -302,6 +302,75 @@ def rule_cache1(S):
     S.require('R-CACHE1', 'cache stores in gc_node / gc_value', n, 2)
 
 
+def _drain_each_element(S, facts, tfin):
+    """Path clause of R-DRAIN: inside the walk over the session table every element that is taken up is drained before the
+    walk moves on (directly, through a closure that drains it, or by handing such a closure to a helper thread)."""
+    from yk.flow import Explorer
+    GC = Y + 'garbage_collection'
+    lams = {l.fid: l for l in facts.lambdas_of(tfin)}
+    drains = {fid for fid, l in lams.items() if any(is_call(n, cq=GC + '::fin') for n in l.all_nodes())}
+    # closure variables holding a draining lambda (matched by source position of the lambda expression)
+    cvars = set()
+    elem_decl = []
+    for n in tfin.all_nodes():
+        if n['k'] != 'DeclStmt':
+            continue
+        for v in n.get('vars', []):
+            if 'init' in v and any(x['k'] == 'LambdaExpr' and any(('@' + short_loc(x)) in fid or short_loc(x) in fid
+                                                                    for fid in drains)
+                                   for x in tfin.walk(v['init'])):
+                cvars.add(v['id'])
+            if Y + 'thread_info' in (v.get('type') or '') and not v['name'].startswith('__') and \
+                    'thread_info_table' not in (v.get('type') or '').replace(Y + 'thread_info_table', ''):
+                elem_decl.append(n)
+    if not elem_decl:
+        return
+    if len(elem_decl) != 1:
+        raise AnalysisBroken('R-DRAIN: more than one session variable in thread_info_table::fin')
+    ed = elem_decl[0]
+    res = {'ok': True, 'path': None, 'loc': tfin.loc}
+
+    def is_drain(nd):
+        if is_call(nd, cq=GC + '::fin'):
+            return True
+        if nd['k'] in CALL_KINDS and nd.get('callee') in drains:
+            return True
+        if nd['k'] in CALL_KINDS or nd['k'] in ('CXXConstructExpr', 'CXXTemporaryObjectExpr'):
+            tgt = (nd.get('callee') or '') + (nd.get('cq') or '') + (nd.get('ty') or '')
+            if 'std::thread' in tgt and any(y['k'] == 'DeclRefExpr' and y.get('id') in cvars
+                                             for a in (nd.get('args') or []) for y in tfin.walk(tfin.node(a))):
+                return True
+        return False
+
+    def fail(ctx, nd):
+        if res['ok']:
+            res['ok'] = False
+            res['path'] = ctx.witness() if ctx is not None else None
+            res['loc'] = short_loc(nd) if nd is not None else tfin.loc
+
+    def step(ctx, nd, st):
+        if nd is ed:
+            if st:
+                fail(ctx, nd)
+            return True
+        if st and is_drain(nd):
+            return False
+        if nd['k'] == 'ReturnStmt':
+            if st:
+                fail(ctx, nd)
+            return None
+        return st
+
+    ex = Explorer(tfin, step)
+    ex.run(False)
+    if any(st for st in ex.exit_states):
+        fail(None, None)
+    S.ob('R-DRAIN', tfin.qname, 'each session taken up by the walk is drained before the walk moves on', res['ok'],
+         'every path through the loop body drains the element' if res['ok'] else
+         'a path through the walk over the session table skips an element without draining its retire queues: what that '
+         'session retired stays allocated past fin()', loc=res['loc'], path=res['path'])
+
+
 def rule_drain(S):
     facts = S.facts()
     S.rule('R-DRAIN', 'every data member of garbage_collection that push_* / gc_* write is emptied by '
@@ -362,6 +431,7 @@ def rule_drain(S):
                     for n in tfin.all_nodes() if n['k'] == 'DeclStmt' for v in n.get('vars', []))
     calls_fin = any(is_call(n, cq=GC + '::fin') for g in [tfin] + facts.lambdas_of(tfin) for n in g.all_nodes())
     joins = any(n['k'] == 'CXXMemberCallExpr' and n.get('cn') == 'join' for n in tfin.all_nodes())
+    _drain_each_element(S, facts, tfin)
     S.ob('R-DRAIN', tfin.qname, 'every session drained', has_range and calls_fin and joins,
          'garbage_collection::fin is applied to every element of the table and helper threads are joined'
          if (has_range and calls_fin and joins) else
